@@ -180,7 +180,9 @@ pub struct Case {
     /// the custom comparisons are written `by = ..` instead of `key = ..`
     pub key_by: bool,
     /// Default configs: the probed field carries an explicit value `#[default(F1::new())]`
-    pub dvalue: bool,
+    /// 0 none, 1 the probed field carries an explicit value, 2 the TYPE carries a value (`#[default(X::mk(), ..)]`):
+    /// only the type levels are consulted then
+    pub dvalue: u8,
     /// Debug configs: the probed field carries `#[debug(transparent)]`
     pub dtransparent: bool,
     pub entry: Entry,
@@ -197,7 +199,7 @@ fn bound_arg(o: Opt, n: usize) -> Option<String> {
 }
 
 /// Render attribute + item text for a configuration and an option per slot.
-fn render(cfg: &Config, opts: &[Opt], key_on: Option<Tr>, key_on2: Option<Tr>, key_by: bool, dvalue: bool, dtransparent: bool) -> (String, String) {
+fn render(cfg: &Config, opts: &[Opt], key_on: Option<Tr>, key_on2: Option<Tr>, key_by: bool, dvalue: u8, dtransparent: bool) -> (String, String) {
     let at = |place: Place, kind: &Kind| -> Option<(usize, Opt)> { cfg.slots.iter().position(|s| s.place == place && &s.kind == kind).map(|i| (i, opts[i])) };
     // derive_ex argument list for a placement; `always` = list every derived trait
     let list = |place: Place, always: bool| -> Option<String> {
@@ -233,11 +235,12 @@ fn render(cfg: &Config, opts: &[Opt], key_on: Option<Tr>, key_on2: Option<Tr>, k
                 let key = if place == Place::Field && (key_on.map(|k| k.attr() == h).unwrap_or(false) || key_on2.map(|k| k.attr() == h).unwrap_or(false)) { Some(if key_by { "by = by_fn".to_string() } else { "key = $.k()".to_string() }) } else { None };
                 if h == "default" {
                     // on the default variant the marker itself is required
-                    let val = if dvalue && place == Place::Field { "F1::new()" } else { "_" };
+                    let val = if dvalue == 1 && place == Place::Field { "F1::new()" } else if dvalue == 2 && place == Place::Type { "X::mk()" } else { "_" };
                     match (&b, place) {
                         (Some(b), _) => v.push(format!("#[default({val}, {b})]")),
                         (None, Place::Variant) => v.push("#[default]".into()),
-                        (None, Place::Field) if dvalue => v.push("#[default(F1::new())]".into()),
+                        (None, Place::Field) if dvalue == 1 => v.push("#[default(F1::new())]".into()),
+                        (None, Place::Type) if dvalue == 2 => v.push("#[default(X::mk())]".into()),
                         _ => {}
                     }
                 } else {
@@ -300,7 +303,7 @@ pub enum Exp {
     Field(usize),
 }
 
-pub fn ref_bounds(cfg: &Config, opts: &[Opt], key_on: Option<Tr>, key_on2: Option<Tr>, key_by: bool, dvalue: bool, dtransparent: bool, t: &str) -> BTreeSet<Exp> {
+pub fn ref_bounds(cfg: &Config, opts: &[Opt], key_on: Option<Tr>, key_on2: Option<Tr>, key_by: bool, dvalue: u8, dtransparent: bool, t: &str) -> BTreeSet<Exp> {
     let mut out = BTreeSet::new();
     out.insert(Exp::Decl);
     let tr = Tr::from_name(t);
@@ -354,6 +357,10 @@ pub fn ref_bounds(cfg: &Config, opts: &[Opt], key_on: Option<Tr>, key_on2: Optio
     if !field_levels(t) {
         return out; // Deref: type level only, no default field bounds
     }
+    // a type-level default value: `default()` returns it, no variant or field is constructed
+    if dvalue == 2 && t == "Default" {
+        return out;
+    }
     // the probed field's comparator selection (comparison family only)
     let (cut, probed_used) = match (tr, key_on) {
         (Some(tr), Some(k)) => {
@@ -371,7 +378,7 @@ pub fn ref_bounds(cfg: &Config, opts: &[Opt], key_on: Option<Tr>, key_on2: Optio
     };
     // a field with an explicit default value is not constructed through `Default::default()`:
     // its explicit levels still apply, its default field-type bound does not
-    let probed_used = probed_used && !(dvalue && t == "Default");
+    let probed_used = probed_used && !(dvalue == 1 && t == "Default");
     if cfg.unit_variant {
         // variant U (slots, no fields); variant B, field B.0
         let _use_u = walk(use_type, &levels(Place::Variant, None), &mut out);
@@ -535,7 +542,7 @@ fn gen(ch: &mut Ch, cfgs: &[Config], plan: &Plan) -> Option<Case> {
     }
     // Default configs with field levels: the probed field with / without an explicit value
     let has_default_field = cfg.derived.iter().any(|d| d == "Default") && cfg.slots.iter().any(|s| s.place == Place::Field && s.kind == Kind::Helper("default".into()));
-    let dvalue = has_default_field && mode == 0 && ch.pick(2) == 1;
+    let dvalue: u8 = if has_default_field && mode == 0 { ch.pick(3) as u8 } else { 0 };
     let has_debug_field = cfg.derived.iter().any(|d| d == "Debug") && cfg.slots.iter().any(|s| s.place == Place::Field && s.kind == Kind::Helper("debug".into()));
     let dtransparent = has_debug_field && mode == 0 && ch.pick(2) == 1;
     let mut opts = Vec::with_capacity(cfg.slots.len());
@@ -578,7 +585,7 @@ fn gen(ch: &mut Ch, cfgs: &[Config], plan: &Plan) -> Option<Case> {
         return None;
     }
     let nogen = ch.pick(3) as u8;
-    if nogen != 0 && !(mode == 0 && key_on.is_none() && !dvalue && !dtransparent && dev <= plan.max_dev - 1) {
+    if nogen != 0 && !(mode == 0 && key_on.is_none() && dvalue == 0 && !dtransparent && dev <= plan.max_dev - 1) {
         return None;
     }
     let (attr, item) = render(cfg, &opts, key_on, key_on2, key_by, dvalue, dtransparent);
@@ -671,8 +678,8 @@ fn describe(cfg: &Config, c: &Case) -> String {
     if let Some(k) = c.key_on2 {
         v.push(format!("field:#[{}({})]", k.attr(), if c.key_by { "by" } else { "key" }));
     }
-    if c.dvalue {
-        v.push("field:#[default(value)]".into());
+    if c.dvalue != 0 {
+        v.push(if c.dvalue == 2 { "type:#[default(value)]" } else { "field:#[default(value)]" }.into());
     }
     if c.dtransparent {
         v.push("field:#[debug(transparent)]".into());
@@ -718,7 +725,7 @@ pub fn run(ctx: &Ctx, rep: &mut Report) {
         let opts: Vec<Opt> = cs["opts"].as_array().unwrap().iter().map(|x| Opt::ALL[x.as_u64().unwrap() as usize]).collect();
         let key_on = cs["key_on"].as_str().and_then(|k| Tr::ALL.iter().copied().find(|t| t.attr() == k));
         let entry = if cs["entry"] == "derive" { Entry::Derive } else { Entry::Attr };
-        let dvalue = cs["dvalue"].as_bool().unwrap_or(false);
+        let dvalue = cs["dvalue"].as_u64().unwrap_or(0) as u8;
         let key_on2 = cs["key_on2"].as_str().and_then(|k| Tr::ALL.iter().copied().find(|t| t.attr() == k));
         let dtransparent = cs["dtransparent"].as_bool().unwrap_or(false);
         let nogen = cs["nogen"].as_u64().unwrap_or(0) as u8;
@@ -738,7 +745,7 @@ pub fn run(ctx: &Ctx, rep: &mut Report) {
     let mut process = |rep: &mut Report, cases: &Vec<Case>, distinct_where: &mut BTreeSet<String>, conform_inputs: &mut Vec<crate::conform::Input>| {
     let evals = par_map(cases, threads(), |_, c| evaluate(&cfgs[c.cfg], c, &templates));
     for c in cases.iter() {
-        if c.opts.iter().filter(|o| **o != Opt::Absent).count() <= 1 && c.key_on.is_none() && !c.dvalue && !c.dtransparent {
+        if c.opts.iter().filter(|o| **o != Opt::Absent).count() <= 1 && c.key_on.is_none() && c.dvalue == 0 && !c.dtransparent {
             conform_inputs.push(crate::conform::Input { entry: c.entry, attr: c.attr.clone(), item: c.item.clone() });
         }
     }
@@ -766,7 +773,7 @@ pub fn run(ctx: &Ctx, rep: &mut Report) {
             if let Some(k) = c.key_on2 {
                 a.insert(format!("key_on={}", k.attr()));
             }
-            if c.dvalue {
+            if c.dvalue != 0 {
                 a.insert("default_value_on_field".into());
             }
             if c.dtransparent {
